@@ -1,5 +1,6 @@
 import VModel.Trainer
 import VModel.Spec
+import VProofs.Lemmas.AsmMain
 /-!
 # C09 — A trained model computes exactly the function the learner produced
 
@@ -27,8 +28,8 @@ structure CfgOK (cfg : TrainCfg) : Prop where
 weights the learner assigned and whatever the two window sizes are -/
 theorem C09_assemble_total (cfg : TrainCfg) (hc : CfgOK cfg) (trace : List (Feature × Int)) (bias : Int)
     (tms : List TagModel) (hg : ∀ e ∈ trace, Generable cfg e.1) :
-    ∃ m, assembleBoundary cfg trace bias tms = .ok m := by
-  sorry
+    ∃ m, assembleBoundary cfg trace bias tms = .ok m :=
+  C09L.assemble_total cfg hc.words_ne hc.maxlen_pos trace bias tms hg
 
 /-- every stored n-gram weight vector covers exactly the positions of its OWN window: `2·window − ℓ + 1` entries -/
 theorem C09_vector_shape (cfg : TrainCfg) (trace : List (Feature × Int)) (bias : Int) (tms : List TagModel) (m : WModel)
@@ -36,15 +37,51 @@ theorem C09_vector_shape (cfg : TrainCfg) (trace : List (Feature × Int)) (bias 
     (∀ d ∈ m.charNgrams, d.weights.length = 2 * cfg.charW - d.ngram.length + 1 ∧ d.ngram.length ≤ 2 * cfg.charW) ∧
     (∀ d ∈ m.typeNgrams, d.weights.length = 2 * cfg.typeW - d.ngram.length + 1 ∧ d.ngram.length ≤ 2 * cfg.typeW) ∧
     (∀ d ∈ m.dict, d.weights.length = d.word.length + 1) ∧
-    m.charW = cfg.charW ∧ m.typeW = cfg.typeW ∧ m.bias = bias ∧ m.dict.map (·.word) = cfg.dictWords := by
-  sorry
+    m.charW = cfg.charW ∧ m.typeW = cfg.typeW ∧ m.bias = bias ∧ m.dict.map (·.word) = cfg.dictWords :=
+  C09L.vector_shape cfg trace bias tms m h
 
 /-- **main theorem**: the model returned by training scores every boundary of every text as the learned quantised bias
 plus the learned quantised weight of each feature the trainer extracts for that boundary (with multiplicity) -/
 theorem C09_scores (cfg : TrainCfg) (hc : CfgOK cfg) (trace : List (Feature × Int)) (bias : Int) (tms : List TagModel)
     (hnd : (trace.map Prod.fst).Nodup) (hg : ∀ e ∈ trace, Generable cfg e.1) (m : WModel)
     (h : assembleBoundary cfg trace bias tms = .ok m) (text : List Char) (b : Nat) (hb : b + 1 < text.length) :
-    specScore m text b = bias + ((genFeatures cfg text b).map (wqOf trace)).sum := by
-  sorry
+    specScore m text b = bias + ((genFeatures cfg text b).map (wqOf trace)).sum :=
+  C09L.scores_main cfg hc.words_ne hc.maxlen_pos trace bias tms hnd hg m h text b hb
+
+/-! ## non-vacuity: a configuration with different character and type windows -/
+namespace C09Ex
+
+def cfg : TrainCfg :=
+  { charW := 2, charN := 2, typeW := 1, typeN := 1, dictWords := [['a', 'b'], ['b']], dictMaxLen := 1 }
+def text : List Char := ['c', 'a', 'b', 'd']
+def trace : List (Feature × Int) :=
+  [(.charNgram ['a', 'b'] (-1), 5), (.charNgram ['b'] 0, -3), (.charNgram ['d'] 1, 7), (.charNgram ['c'] (-2), 0),
+   (.typeNgram [2] (-1), 11), (.typeNgram [2] 0, 0),
+   (.dictWord 1 .inside, 13), (.dictWord 1 .right, 17), (.dictWord 1 .left, 19)]
+/-- character vectors have `2·2 − ℓ + 1` entries, the type vector `2·1 − 1 + 1` -/
+def model : WModel :=
+  { charNgrams := [⟨['a', 'b'], [0, 5, 0]⟩, ⟨['b'], [0, -3, 0, 0]⟩, ⟨['d'], [7, 0, 0, 0]⟩],
+    typeNgrams := [⟨[2], [0, 11]⟩],
+    dict := [⟨['a', 'b'], [19, 13, 17], []⟩, ⟨['b'], [19, 17], []⟩],
+    bias := 100, charW := 2, typeW := 1, tagModels := [] }
+
+/-- the hypotheses of `C09_scores` are satisfiable, the assembled model is the expected one, and boundary 1 of `cabd`
+scores `100 + 5 − 3 + 7 + 0 + 11 + 0 + 13 + 19 = 152` on both sides -/
+example :
+    CfgOK cfg ∧ (trace.map Prod.fst).Nodup ∧ (∀ e ∈ trace, Generable cfg e.1) ∧
+    assembleBoundary cfg trace 100 [] = .ok model ∧
+    specScore model text 1 = 152 ∧ 100 + ((genFeatures cfg text 1).map (wqOf trace)).sum = 152 := by
+  refine ⟨⟨by decide, by decide, by decide⟩, by decide, ?_, by decide, by decide, by decide⟩
+  intro e he
+  have hgen : ∀ i, i + 1 < text.length → ∀ f, f ∈ genFeatures cfg text i → Generable cfg f :=
+    fun i hi f hf => ⟨text, i, hi, hf⟩
+  have : ∀ e ∈ trace, e.1 ∈ genFeatures cfg text 0 ∨ e.1 ∈ genFeatures cfg text 1 ∨ e.1 ∈ genFeatures cfg text 2 := by
+    decide
+  rcases this e he with h | h | h
+  · exact hgen 0 (by decide) _ h
+  · exact hgen 1 (by decide) _ h
+  · exact hgen 2 (by decide) _ h
+
+end C09Ex
 
 end V
